@@ -1,6 +1,6 @@
 CONSTANT MaxGen = 3
 CONSTANT NDig = 2
-CONSTANT MaxRevs = 4
+CONSTANT MaxRevs = 3
 CONSTANT MaxSteps = 3
 CONSTANT Reps <- One
 CONSTANT Depths = {1, 2, 3}
